@@ -375,7 +375,7 @@ func findMissingRules(c *Ctx) {
 // ---------- C16 ----------
 func writeProtocolRules(c *Ctx) {
 	R := c.R
-	R.Rule("R16a", "E2", "acknowledge after the store: every SendAndClose(&resp) in Write is dominated by having received nil or io.EOF (blob already present) from the Put result channel", 3)
+	R.Rule("R16a", "E2", "acknowledge after the store: every SendAndClose(&resp) in Write is dominated by having received nil or io.EOF (blob already present) from the Put result channel", 2)
 	R.Rule("R16b", "E3+E7", "committed_size bookkeeping: the stores to resp.CommittedSize are exactly `= size` (exists, identity), `= -1` (exists, compressed), `= req.WriteOffset` (first message) and `+= n` with n the bytes the pipe accepted for that message", 4)
 	R.Rule("R16c", "E2", "protocol violations fail: the Put goroutine is started only for a first message with write_offset 0, a parsable resource name and a size within the limit; a changed resource name, too many bytes or a size mismatch at end of stream send an error (never io.EOF) to the result channel", 4)
 	R.Rule("R16d", "E2", "QueryWriteStatus reports complete with the full size exactly when the blob is present", 2)
@@ -462,9 +462,10 @@ func writeProtocolRules(c *Ctx) {
 				return []St{s}
 			},
 		})
+		base.InlineOwnHelpers()
 		x := NewExec(c.P.FlowOf(fi), base)
 		x.Run(newSt())
-		R.Check(n >= 3, "R16a", c.Cfg+"Write:acks", "", "the three acknowledgement sites of Write were analysed", fmt.Sprintf("found %d", n))
+		R.Check(n >= 2, "R16a", c.Cfg+"Write:acks", "", "the acknowledgement sites of Write (early exit for a present blob, normal completion) were analysed", fmt.Sprintf("found %d", n))
 	}
 	// the receive loop literal
 	var recv *ast.FuncLit
